@@ -518,6 +518,7 @@ func (w *world) shutdownApp() {
 	w.faults.Add("local_shutdown", 1)
 	simrt.BeforeSend(-1, w.stream.Shutdown)
 	w.stream.Shutdown <- true
+	simrt.AfterSend(-1)
 }
 
 type rawMsg struct{ b []byte }
@@ -557,6 +558,7 @@ func (w *world) producer(pi int) {
 		}
 		simrt.BeforeSend(-1, w.stream.Outbound)
 		w.stream.Outbound <- msg
+		simrt.AfterSend(-1)
 		o.submitted++
 		w.sim.Event(0x5ab, uint64(o.m.Xid))
 	}
